@@ -43,6 +43,10 @@
 //   iterator is copied and both copies are run to the end   foreach: std::for_each(b, e, ..)
 //   X (reverse only: its iterators are std::reverse_iterator, which declare ==, iterator_traits, bidirectional category;
 //   the enumerate iterator declares only *, ++, ++(int), != and no iterator_traits, so nothing more is asked of it)
+// case:  et <adaptor en|rv> <elemtype any|val|ilt> <kind vec|list|il> <mode l|r> <elems>   — element types that are constructible
+//   from a container / initializer list of themselves (std::any, a recursive Value(std::vector<Value>), a type with an
+//   initializer_list-of-itself constructor); elems are the int tags of the elements   -> ET <number of visits> <visits>
+//   (a visit shows the element's own tag: any_cast<int>, Value::tag; an element that wraps a container shows -1 / -2)
 // The temporaries of mode r are created inside the range-for statement itself, so that a dangling adaptor is an
 // AddressSanitizer report (observation CRASH(...)).
 #include "common.hpp"
@@ -51,6 +55,7 @@
 #include <nitro/lang/reverse.hpp>
 
 #include <algorithm>
+#include <any>
 #include <array>
 #include <functional>
 #include <initializer_list>
@@ -631,6 +636,86 @@ template <class Mk> std::string run_manual(bool en, char mode, Mk mk, std::size_
     return "BADCASE";
 }
 
+// ---- element types constructible from their own container ----
+struct Value
+{
+    int tag;
+    std::vector<Value> kids;
+    Value(int t) : tag(t) {}
+    Value(std::vector<Value> k) : tag(-1), kids(std::move(k)) {}
+    Value(std::list<Value> k) : tag(-1), kids(k.begin(), k.end()) {}
+};
+struct ILT
+{
+    int tag;
+    std::size_t n = 0;
+    ILT(int t) : tag(t) {}
+    ILT(std::initializer_list<ILT> l) : tag(-2), n(l.size()) {}
+};
+static int tag_of(const std::any& a) { return a.type() == typeid(int) ? std::any_cast<int>(a) : -1; }
+static int tag_of(const Value& v) { return v.tag; }
+static int tag_of(const ILT& v) { return v.tag; }
+template <class E, class C> C make_elems(const Elems& e)
+{
+    C c;
+    for (int v : e) c.push_back(E(v));
+    return c;
+}
+template <bool EN, class R> std::string et_loop(R&& range, std::size_t n)
+{
+    std::string vis;
+    std::size_t k = 0;
+    if constexpr (EN)
+    {
+        for (auto x : range) { if (k++ > n + 3) return "RUNAWAY"; join(vis, ",", std::to_string(x.index()) + ":" + std::to_string(tag_of(x.value()))); }
+    }
+    else
+    {
+        for (auto& x : range) { if (k++ > n + 3) return "RUNAWAY"; join(vis, ",", std::to_string(tag_of(x))); }
+    }
+    return "ET " + std::to_string(k) + " " + dot(vis);
+}
+template <bool EN, class E, class C> std::string et_container(char mode, const Elems& e)
+{
+    if (mode == 'l')
+    {
+        C c = make_elems<E, C>(e);
+        if constexpr (EN) return et_loop<EN>(nl::enumerate(c), e.size());
+        else return et_loop<EN>(nl::reverse(c), e.size());
+    }
+    if (mode == 'r')
+    {
+        if constexpr (EN) return et_loop<EN>(nl::enumerate(make_elems<E, C>(e)), e.size());
+        else return et_loop<EN>(nl::reverse(make_elems<E, C>(e)), e.size());
+    }
+    return "BADCASE";
+}
+template <bool EN, class E> std::string et_braced(const Elems& e)
+{
+    switch (e.size())
+    {
+    case 1: if constexpr (EN) return et_loop<EN>(nl::enumerate({ E(e[0]) }), 1); else return et_loop<EN>(nl::reverse({ E(e[0]) }), 1);
+    case 2: if constexpr (EN) return et_loop<EN>(nl::enumerate({ E(e[0]), E(e[1]) }), 2); else return et_loop<EN>(nl::reverse({ E(e[0]), E(e[1]) }), 2);
+    case 3: if constexpr (EN) return et_loop<EN>(nl::enumerate({ E(e[0]), E(e[1]), E(e[2]) }), 3); else return et_loop<EN>(nl::reverse({ E(e[0]), E(e[1]), E(e[2]) }), 3);
+    case 4: if constexpr (EN) return et_loop<EN>(nl::enumerate({ E(e[0]), E(e[1]), E(e[2]), E(e[3]) }), 4); else return et_loop<EN>(nl::reverse({ E(e[0]), E(e[1]), E(e[2]), E(e[3]) }), 4);
+    }
+    return "BADCASE";
+}
+template <bool EN, class E> std::string et_kind(const std::string& k, char mode, const Elems& e)
+{
+    if (k == "vec") return et_container<EN, E, std::vector<E>>(mode, e);
+    if (k == "list") return et_container<EN, E, std::list<E>>(mode, e);
+    if (k == "il" && mode == 'r') return et_braced<EN, E>(e);
+    return "BADCASE";
+}
+template <bool EN> std::string et_type(const std::string& t, const std::string& k, char mode, const Elems& e)
+{
+    if (t == "any") return et_kind<EN, std::any>(k, mode, e);
+    if (t == "val") return et_kind<EN, Value>(k, mode, e);
+    if (t == "ilt") return et_kind<EN, ILT>(k, mode, e);
+    return "BADCASE";
+}
+
 constexpr std::size_t MAXN = 6;
 
 template <std::size_t N> std::string run_arr(bool en, char mode, const Elems& e)
@@ -769,6 +854,13 @@ static std::string run_case(const std::vector<std::string>& w)
                 }
             });
         return "BADCASE";
+    }
+    if (w.size() == 6 && w[0] == "et" && (w[1] == "en" || w[1] == "rv") && w[4].size() == 1)
+    {
+        Elems e;
+        if (w[5] != ".")
+            for (auto& t : vh::split_on(w[5], ',')) e.push_back(std::atoi(t.c_str()));
+        return w[1] == "en" ? et_type<true>(w[2], w[3], w[4][0], e) : et_type<false>(w[2], w[3], w[4][0], e);
     }
     if (w.size() == 5 && w[0] == "mi" && (w[1] == "en" || w[1] == "rv") && w[3].size() == 1)
     {
